@@ -946,6 +946,12 @@ def gen_hci(rng, tier, seed):
     from bsim import genhci
     from bumble import hci
 
+    # registries are filled when modules are imported; import the lazily loaded ones so that generation does not depend on history
+    import bumble.drivers.intel  # noqa: F401
+    import bumble.drivers.rtk  # noqa: F401
+    import bumble.vendor.android.hci  # noqa: F401
+    import bumble.vendor.zephyr.hci  # noqa: F401
+
     frames = []
     classes = sorted(hci.HCI_Event.event_classes.items()) if hasattr(hci.HCI_Event, 'event_classes') else []
     meta = sorted(getattr(hci.HCI_LE_Meta_Event, 'subevent_classes', {}).items())
